@@ -35,11 +35,14 @@ NG_FORMS = ["float", "int", "list1", "arr0", "arr1", "quantity", "quantity_conv"
 G_FORMS = ["array", "array_t", "flat", "list", "masked", "quantity", "quantity_conv", "quantity_bad", "bad_shape",
            "same_obj", "view", "copy_prev"]
 GAPS = [1, 2, 3, 4, 7, 2, 30, 51]
+# NoGrid(dim >= 1): arrays without spatial reference whose axis lengths may change from one publication to the next
+V_FORMS = ["vec", "vec", "vec_t", "vec_list", "vec_q", "vec_qconv", "quantity_bad", "vec_bad", "vec_copy"]
 
 
 def generate(tape, tier="quick"):
     gridded = tape.chance(1, 2)
     g = gen_structured(tape, max_dim=2, max_len=4) if gridded else None
+    ngdim = tape.choice([1, 1, 2]) if (not gridded and tape.chance(1, 3)) else 0
     group = ["K", "degC"] if tape.chance(1, 4) else ["m", "km", "mm"]      # offset units / multiplicative units
     su = tape.choice(group)
     n_cons = tape.weighted([(1, 3), (2, 2)])
@@ -52,12 +55,14 @@ def generate(tape, tier="quick"):
     k = 0
     for _ in range(tape.weighted([(10, 4), (20, 4), (35, 2)])):
         if tape.chance(2, 5) or not pubs:
-            form = tape.choice(G_FORMS if gridded else NG_FORMS)
+            form = tape.choice(G_FORMS if gridded else (V_FORMS if ngdim else NG_FORMS))
             if pubs:
                 t += tape.choice(GAPS)
             events.append(["PUSH", t, k, form, tape.choice(group)])
+            if ngdim:
+                events[-1].append([tape.rng_int(1, 4) for _ in range(ngdim)])
             k += 1
-            if form not in ("quantity_bad", "bad_shape", "same_obj", "view"):
+            if form not in ("quantity_bad", "bad_shape", "same_obj", "view", "vec_bad"):
                 pubs.append(t)
             elif form in ("same_obj", "view") and not any(e[0] == "PUSH" and e[3] in ("array", "array_t", "copy_prev")
                                                            for e in events[:-1]):
@@ -87,8 +92,11 @@ def generate(tape, tier="quick"):
             events.append(["PULL", ci, tt])
             if tt >= pubs[0]:
                 last[ci] = tt
-    return {"engine": "D", "grid": g, "src_units": su, "consumers": cons, "events": events,
-            "mask": tape.choice(["FLEX", "FLEX", "NONE", "fixed"] if gridded else ["FLEX", "FLEX", "NONE"])}
+    sc = {"engine": "D", "grid": g, "src_units": su, "consumers": cons, "events": events,
+          "mask": tape.choice(["FLEX", "FLEX", "NONE", "fixed"] if gridded else ["FLEX", "FLEX", "NONE"])}
+    if ngdim:
+        sc["ngdim"] = ngdim
+    return sc
 
 
 def execute(sc):
@@ -98,7 +106,8 @@ def execute(sc):
         viol.append({"oracle": oracle, "kind": kind, "msg": msg})
 
     g = sc["grid"]
-    G = make_grid(g) if g else NoGrid()
+    ngdim = sc.get("ngdim", 0)
+    G = make_grid(g) if g else NoGrid(dim=ngdim)
     M = MGrid(g) if g else None
     shape = M.data_shape() if M else ()
     su = sc["src_units"]
@@ -109,7 +118,7 @@ def execute(sc):
     out = Output(name="src", info=Info(time=dt(0), grid=G, units=su, mask=maskarr if fixed else Mask[sc["mask"]]))
     inputs = []
     for ci, c in enumerate(sc["consumers"]):
-        inp = Input(name=f"c{ci}", info=Info(time=dt(0), grid=(make_grid(g) if g else NoGrid()) if c["grid"] == "same" else None,
+        inp = Input(name=f"c{ci}", info=Info(time=dt(0), grid=(make_grid(g) if g else NoGrid(dim=ngdim)) if c["grid"] == "same" else None,
                                              units=c["units"], mask=Mask.FLEX))
         if c["scale"]:
             out >> Scale(2.0) >> inp
@@ -128,11 +137,29 @@ def execute(sc):
         if viol:
             break
         if e[0] == "PUSH":
-            _, t, k, form, pu = e
+            _, t, k, form, pu = e[:5]
             forms.add(form)
             vals = np.asarray(base + 1000.0 * (k + 1), dtype=float)
+            if ngdim:
+                lens = tuple(e[5])
+                vals = np.arange(int(np.prod(lens)), dtype=float).reshape(lens) * 10.0 + 1000.0 * (k + 1)
             want_ok, stored, msk = True, vals, None
-            if form == "float":
+            if form in ("vec", "vec_copy"):
+                payload = vals.copy()
+            elif form == "vec_t":
+                payload = vals.copy()[np.newaxis, ...]
+            elif form == "vec_list":
+                payload = vals.tolist()
+            elif form == "vec_q":
+                payload = UNITS.Quantity(vals.copy(), su)
+            elif form == "vec_qconv":
+                payload = UNITS.Quantity(vals.copy(), pu)
+                stored = np.asarray(convert(vals, pu, su))
+            elif form == "vec_bad":
+                # wrong number of axes for NoGrid(dim): two more than dim can be neither data nor data with a time axis
+                payload = np.zeros((2,) * (ngdim + 2))
+                want_ok = False
+            elif form == "float":
                 payload = float(vals)
             elif form == "int":
                 payload = int(vals)
@@ -193,7 +220,7 @@ def execute(sc):
             elif not want_ok and ok:
                 v("share-not-refused" if form in ("same_obj", "view") else "push-accepted", form,
                   f"event {ei}: push of form {form} at {t} was accepted")
-            elif not want_ok and err != "FinamDataError" and form != "bad_shape":
+            elif not want_ok and err != "FinamDataError" and form not in ("bad_shape", "vec_bad"):
                 v("push-wrong-error", form, f"event {ei}: push of form {form} raised {err}")
             if ok:
                 if fixed:
@@ -238,14 +265,17 @@ def execute(sc):
             cu = c["units"] or su
             f = 2.0 if c["scale"] else 1.0
             arr = d.magnitude
-            if arr.shape != (1,) + tuple(shape):
-                v("link-shape", "shape", f"event {ei}: delivered shape {arr.shape}, expected {(1,) + tuple(shape)}")
+            wshapes = [(1,) + tuple(p[1].shape) for p in cands] if ngdim else [(1,) + tuple(shape)]
+            if arr.shape not in wshapes:
+                v("link-shape", "shape", f"event {ei}: delivered shape {arr.shape}, expected {wshapes}")
                 continue
             if not bool(UNITS.Unit(str(d.units)) == UNITS.Unit(cu)):
                 v("link-units", "units", f"event {ei}: delivered units {d.units}, expected {cu}")
                 continue
             okv = False
             for (tp, a, msk) in cands:
+                if ngdim and (1,) + tuple(a.shape) != arr.shape:
+                    continue
                 want = convert(a * f, su, cu)
                 got = np.ma.getdata(arr[0])
                 if msk is not None:
